@@ -191,6 +191,9 @@ def run(chk: core.Check, tier: str, seed: int) -> None:
     # "numbers by numeric value": a literal against the document number a JSON decoder makes of the SAME text - also beyond the
     # range where the value model is exact (there the model abstains from values, but same text = same number is still pinned)
     import json as _json  # noqa: PLC0415
+    from .. import probes as _probes  # noqa: PLC0415
+    wide_env = _probes.make_env(jp, [], [], lo=-(2 ** 70), hi=2 ** 70)
+    narrow_env = _probes.make_env(jp, [], [], lo=-5, hi=5)
     for text in ("1e23", "3e25", "7e100", "1e308", "12345678901234567e3", "1E+23", "5e22", "1e16", "9007199254740993", "123e20", "1.5e300",
                  "0.30000000000000004", "1e-7", "5e-324", "2.5e-300", "123456789012345678901234567890", "1.0e15", "4.35", "1e22", "1e21"):
         for sign in ("", "-"):
@@ -198,12 +201,14 @@ def run(chk: core.Check, tier: str, seed: int) -> None:
             doc = [_json.loads(t)]
             for cmp_ in ("==", "!=", "<", "<=", ">", ">="):
                 q = f"$[?@ {cmp_} {t}]"
-                rec = {"op": "sametext", "q": core.enc_text(q), "t": core.enc_text(t), "cmp": cmp_, "sel": False, "out": "ok", "cls": ""}
-                try:
-                    rec["sel"] = len(jp.find(q, doc)) == 1
-                except Exception as err:  # noqa: BLE001
-                    rec["out"], rec["cls"] = "raise", type(err).__name__
-                recs.append(rec)
+                # (the environment's integer range is about indices and slices: a wider or narrower one changes no comparison)
+                for e_ in (jp, wide_env, narrow_env):
+                    rec = {"op": "sametext", "q": core.enc_text(q), "t": core.enc_text(t), "cmp": cmp_, "sel": False, "out": "ok", "cls": ""}
+                    try:
+                        rec["sel"] = len(e_.find(q, doc)) == 1
+                    except Exception as err:  # noqa: BLE001
+                        rec["out"], rec["cls"] = "raise", type(err).__name__
+                    recs.append(rec)
     for r in recs:
         chk.nontrivial.add((tuple(r["q"]), str(r.get("doc"))[:300]))
     chk.sample({"query": core.dec_text(recs[5]["q"]), "doc": core.dec_value(recs[5]["doc"]), "locs": recs[5]["locs"]})
